@@ -403,8 +403,10 @@ class BaseTemplateFile(BaseTemplate):
             mtime = self.mtime()
 
             if mtime != self._v_last_read:
-                self._v_last_read = mtime
+                # Invalidate first: a concurrent thread that sees the new
+                # modification time must not find the template cooked.
                 self._cooked = False
+                self._v_last_read = mtime
 
         if self._cooked is False:
             body = self.read()
